@@ -619,6 +619,54 @@ func ruleC03Parse(c *Checker) {
 			return !isC
 		})
 	}
+	// every line that is neither blank nor a comment appends a rule: each way back to the
+	// scan loop's head either passes the append of the rule or lies on an enumerated skip edge
+	var scanCall *ssa.Call
+	for _, ci := range callsTo(rd, func(o *types.Func) bool { return isMethod(o, "bufio", "Scanner", "Scan") }) {
+		scanCall = ci.(*ssa.Call)
+	}
+	var ruleAppend *ssa.Call
+	eachInstr(rd, func(in ssa.Instruction) {
+		if cl, ok := in.(*ssa.Call); ok && inLoop(cl.Block()) {
+			if bi, ok := cl.Call.Value.(*ssa.Builtin); ok && bi.Name() == "append" {
+				if sl, ok := cl.Type().Underlying().(*types.Slice); ok {
+					if n, ok := types.Unalias(sl.Elem()).(*types.Named); ok && n.Obj().Name() == "rule" {
+						ruleAppend = cl
+					}
+				}
+			}
+		}
+	})
+	if scanCall != nil && ruleAppend != nil {
+		head := scanCall.Block()
+		emptyT, _ := condEdges(rd, func(v ssa.Value) bool {
+			bo, ok := v.(*ssa.BinOp)
+			if !ok || bo.Op != token.EQL {
+				return false
+			}
+			if k, isC := constInt(bo.Y); isC && k == 0 && lenOf(bo.X) != nil {
+				return true
+			}
+			s2, isC := constString(bo.Y)
+			return isC && s2 == ""
+		})
+		hashSkip, _ := byteCmp('#', true)
+		skips := append(append([]Edge{}, emptyT...), hashSkip...)
+		for i, pr := range head.Preds {
+			if !reaches(head, pr) {
+				continue
+			}
+			okb := dominatesBlock(ruleAppend.Block(), pr) || guarded(pr, skips)
+			for _, e := range skips {
+				if e.From == pr && e.To() == head {
+					okb = true // the skip edge itself leads back to the scanner
+				}
+			}
+			c.check(okb, R, name, fmt.Sprintf("line %d-th way back to the scanner", i), p.Pos(firstPos(pr)), "after appending the rule, or on a blank-line / comment / lone-'!' edge", "a rule line can be dropped without becoming a rule (e.g. a repeated pattern treated as redundant): a later occurrence that should win as the last match is lost")
+		}
+	} else {
+		c.fail(R, name, "rule append in the scan loop", p.Pos(rd.Pos()), "no append of a rule inside the scanning loop found")
+	}
 	// '!' → negated
 	bangT, _ := byteCmp('!', true)
 	nNeg := 0
